@@ -955,70 +955,65 @@ class CachedInput:
         self.__timeout = timeout
         self.block_size = block_size
 
+    def __fill(self, size):
+        """Fill empty buffer with up to size bytes of the declared length.
+
+        Return False when the underlying file has nothing more (end of input).
+        """
+        size = min(self.__todo, size)
+        data = self.__file.read(size) if size > 0 else b''
+        self.__todo -= len(data)
+        self.__buffer = data
+        return bool(data)
+
     def read(self, size=-1):
         """Compatible file read which works with internal buffer."""
         if size < 0:
             size = self.block_size
 
         b_size = len(self.__buffer)
-        size = min(self.__todo, size)
+        size = min(self.__todo + b_size, size)
 
-        if self.__buffer:
-            if b_size >= size:
-                retval = self.__buffer[:size]
-                self.__buffer = self.__buffer[size:]
-                return retval
-            size = size - b_size
-            self.__todo -= size
-            retval = self.__buffer + self.__file.read(size)
-            self.__buffer = b''
+        if b_size >= size:
+            retval = self.__buffer[:size]
+            self.__buffer = self.__buffer[size:]
             return retval
 
-        size = min(self.__todo, size)
-        self.__todo -= size
-        return self.__file.read(size)
+        data = self.__file.read(size - b_size)
+        self.__todo -= len(data)
+        retval = self.__buffer + data
+        self.__buffer = b''
+        return retval
 
-    def readline(self, size=-1):  # noqa: C901
-        """Compatible file read which works with internal buffer."""
+    def readline(self, size=-1):
+        """Compatible file read which works with internal buffer.
+
+        Line ends with CRLF. Line without CRLF on its end was cut by size
+        or by the end of input.
+        """
         if size < 0:
             size = self.block_size
-
-        if not self.__buffer:
-            size = min(self.__todo, size)
-            self.__todo -= size
-            self.__buffer = self.__file.read(size)
+        size = min(size, len(self.__buffer) + self.__todo)
 
         line = b''
-        l_size = 0
-        if self.__timeout is not None:
-            times_out_at = time() + self.__timeout
-            seen_data = False
+        while len(line) < size:
+            max_size = size - len(line)
+            if not self.__buffer and not self.__fill(max_size):
+                break   # end of input
 
-        while l_size < size:
-            max_size = size-l_size
+            # CRLF divided to two blocks
+            if line[-1:] == b'\r' and self.__buffer[:1] == b'\n':
+                self.__buffer = self.__buffer[1:]
+                return line + b'\n'
+
             pos = self.__buffer.find(b'\r\n', 0, max_size)
             if pos >= 0:
                 line += self.__buffer[:pos + 2]
                 self.__buffer = self.__buffer[pos + 2:]
                 return line
 
-            if self.__timeout is not None:
-                if self.__buffer:
-                    seen_data = True
-                elif seen_data:
-                    seen_data = False
-                    times_out_at = time() + self.__timeout
-                elif time() > times_out_at:
-                    raise TimeoutError("Timed out while receiving data")
-
             line += self.__buffer[:max_size]
             self.__buffer = self.__buffer[max_size:]
-            l_size = len(line)
-
-            if l_size < size:
-                n_size = min(self.__todo, max_size)
-                self.__todo -= n_size
-                self.__buffer = self.__file.read(n_size)
 
         # no end-of-line found
         return line
